@@ -13,6 +13,7 @@ def run(F, G, tier, seed):
     stack.check(chk, T, "R-STACK[doc]", "UTAP::DocumentBuilder", emit=("N", "P"))
     scopes.stale(chk, F)
     driver.deferred(chk, F, T)
+    scopes.edge_owned_frames(chk, F)
     scopes.entry_points(chk, F)
     # the scanner's start condition is the one piece of lexer state that outlives a block: a label that ends
     # inside a comment must not turn the following blocks into comment text
